@@ -403,7 +403,7 @@ def main(tier, seed):
         "oracle_failures": oracle_fail,
         "unproved_clauses": [],
     })
-    res.assumptions = ["ids stay below 2^31-1 (C++ int); model ids are unbounded Z",
+    res.assumptions = ["ids stay below 2^31-1 (C++ int); model ids are unbounded Z - at INT_MAX NextFileId() stays there (no fresh name is left), which the model does not follow",
                        "operations respect the C++ preconditions (no use of destroyed instances; "
                        "Delete(se) only for registered instances)"]
     return res.finish()
